@@ -673,22 +673,68 @@ def _g_group(repo, J, site):
     if isinstance(arg, ast.BoolOp) and isinstance(arg.op, ast.Or) and isinstance(arg.values[-1], ast.Constant) \
             and isinstance(arg.values[-1].value, int):
         arg = arg.values[0]
-    name = None
-    if isinstance(arg, ast.Subscript) and isinstance(arg.value, ast.Name) and A.const_str(arg.slice):
-        name, var = A.const_str(arg.slice), arg.value.id
-    elif isinstance(arg, ast.Name):
-        # x = values['g'][:k] ; x += '0'
-        for a in walk_function(f.node):
-            if isinstance(a, ast.Assign) and any(isinstance(t, ast.Name) and t.id == arg.id for t in a.targets):
-                v = a.value
-                if isinstance(v, ast.Subscript) and isinstance(v.slice, ast.Slice):
-                    v = v.value
-                if isinstance(v, ast.Subscript) and isinstance(v.value, ast.Name) and A.const_str(v.slice):
-                    name, var = A.const_str(v.slice), v.value.id
-        for a in walk_function(f.node):
-            if isinstance(a, ast.AugAssign) and isinstance(a.target, ast.Name) and a.target.id == arg.id:
-                if not (isinstance(a.op, ast.Add) and A.const_str(a.value) and A.const_str(a.value).isdigit()):
+    def digit_const(e):
+        v = A.const_str(e)
+        return v is not None and (v.isdigit() or v == '')
+
+    def origin(e, depth=0):
+        """(group name, dict variable) when e is a named group, possibly cut / padded with digits (digit-preserving)."""
+        if depth > 6:
+            return None
+        if isinstance(e, ast.Subscript) and isinstance(e.value, ast.Name) and A.const_str(e.slice):
+            return A.const_str(e.slice), e.value.id
+        if isinstance(e, ast.Subscript) and isinstance(e.slice, ast.Slice):
+            return origin(e.value, depth + 1)
+        if isinstance(e, ast.Call) and isinstance(e.func, ast.Attribute) and e.func.attr in ('ljust', 'rjust') \
+                and len(e.args) == 2 and digit_const(e.args[1]):
+            return origin(e.func.value, depth + 1)
+        if isinstance(e, ast.Call) and isinstance(e.func, ast.Attribute) and e.func.attr in ('zfill', 'strip', 'lstrip', 'rstrip') \
+                and len(e.args) <= 1:
+            return origin(e.func.value, depth + 1)
+        if isinstance(e, ast.BinOp) and isinstance(e.op, ast.Add):
+            if digit_const(e.right) or (isinstance(e.right, ast.BinOp) and isinstance(e.right.op, ast.Mult) and digit_const(e.right.left)):
+                return origin(e.left, depth + 1)
+            return None
+        if isinstance(e, ast.Name):
+            # the definitions of the name that reach this use (flow-sensitive: `x = 0` on another path does not count)
+            from .cfg import reaching_defs
+            at = at_nodes[-1]
+            rd = reaching_defs(J.cfg, e.id)
+            defs = set()
+            for n in at:
+                defs |= rd.get(n, set())
+            if not defs:
+                return None
+            got = set()
+            for dn in defs:
+                a = dn.ast
+                if isinstance(a, ast.Assign):
+                    at_nodes.append([dn])
+                    o = origin(a.value, depth + 1)
+                    at_nodes.pop()
+                    if o is None:
+                        return None
+                    got.add(o)
+                elif isinstance(a, ast.AugAssign):
+                    if not (isinstance(a.op, ast.Add) and digit_const(a.value)):
+                        return None
+                    at_nodes.append([dn])
+                    o = origin(ast.Name(id=e.id, ctx=ast.Load()), depth + 1) if depth < 3 else None
+                    at_nodes.pop()
+                    if o is not None:
+                        got.add(o)
+                    # a self-referential padding loop contributes nothing new
+                else:
                     return None
+            if len(got) == 1:
+                return got.pop()
+            return None
+        return None
+    at_nodes = [J.nodes_of(site.node)]
+    name = None
+    o = origin(arg)
+    if o is not None:
+        name, var = o
     if name is None:
         return None
     # var = match.groupdict() of a class-level regex
